@@ -24,6 +24,8 @@
                      mux / demux build every field of the result from the same-named field of the operands (shared with C01-R2).
  Rn arg roles     : a variable named like a parameter of the callee is handed to that parameter (no exchanged roles).
  R8 ref point      : f_ref x lambda_ref = c for every input form (value graph of FiberParams.__init__).
+ R9 Raman orders   : each perturbative order block adds the term it computes, once.
+ R10 siblings      : RamanFiber.propagate updates CD / PMD / latency with the same statements as Fiber.propagate.
 """
 import ast
 
@@ -518,6 +520,53 @@ def r8_ref_point(ctx):
     ctx.need('R8.ref-point', 2)
 
 
+def r9_raman_orders(ctx):
+    """R9: the perturbative Raman solver adds, for each order k it is asked for, the k-th order term computed in that very block
+    (exponent += gamma_k inside `if order >= k`, gamma_k assigned in the same block): orders agree with the numerical method
+    only if every term enters once"""
+    repo = ctx.repo
+    rs = repo.cls('RamanSolver', 'gnpy.core.science_utils')
+    f = repo.method(rs, 'calculate_unidirectional_stimulated_raman_scattering')
+    blocks = [n for n in ast.walk(f.node) if isinstance(n, ast.If) and isinstance(n.test, ast.Compare) and 'order' in ast.unparse(n.test)
+              and any(isinstance(x, ast.AugAssign) for x in n.body)]
+    seen = []
+    for b in blocks:
+        adds = [x for x in b.body if isinstance(x, ast.AugAssign) and isinstance(x.op, ast.Add) and isinstance(x.value, ast.Name)]
+        assigned = {t.id for x in b.body if isinstance(x, ast.Assign) for t in x.targets if isinstance(t, ast.Name)}
+        ok = len(adds) == 1 and adds[0].value.id in assigned and adds[0].value.id not in seen
+        if adds:
+            seen.append(adds[0].value.id)
+        ctx.check('R9.raman-orders', f'{site(f, b)} {ast.unparse(b.test)}', ok, key(f, f'order|{ast.unparse(b.test)}'),
+                  f'the block for `{ast.unparse(b.test)}` does not add the term it computes (adds {[ast.unparse(a.value) for a in adds]}, '
+                  f'assigns {sorted(assigned)}): an order would be missing or counted twice')
+    ctx.need('R9.raman-orders', 4)
+
+
+def r10_sibling_accumulators(ctx):
+    """R10: a Raman-pumped span accumulates CD, PMD and latency exactly like a plain span: the statements that update
+    chromatic_dispersion, pmd and latency in RamanFiber.propagate are the ones of Fiber.propagate (same expressions, in
+    particular the dispersion evaluated at the channel frequencies)"""
+    repo = ctx.repo
+    out = {}
+    for cn in ('Fiber', 'RamanFiber'):
+        f = repo.method(repo.cls(cn, EL), 'propagate')
+        sp = f.params[1]
+        d = {}
+        for n in walk_no_nested(f.node):
+            if isinstance(n, (ast.Assign, ast.AugAssign)):
+                t = n.targets[0] if isinstance(n, ast.Assign) else n.target
+                if isinstance(t, ast.Attribute) and isinstance(t.value, ast.Name) and t.value.id == sp and \
+                        t.attr in ('chromatic_dispersion', 'pmd', 'latency', 'pdl'):
+                    d[t.attr] = ast.unparse(n).replace(sp + '.', 'SI.')
+        out[cn] = (f, d)
+    (ff, a), (fr, b) = out['Fiber'], out['RamanFiber']
+    for fld in sorted(set(a) | set(b)):
+        ctx.check('R10.sibling-accumulators', f'{site(fr)} {fld}', a.get(fld) == b.get(fld), key(fr, f'sibling|{fld}'),
+                  f'RamanFiber.propagate updates {fld} as `{b.get(fld)}`, Fiber.propagate as `{a.get(fld)}`: a Raman span would accumulate '
+                  'another quantity than a plain span with the same parameters')
+    ctx.need('R10.sibling-accumulators', 3)
+
+
 from ..memo import rule_for as _memo_rule
 
 RULES_MEMO = ('Rm.memo', _memo_rule('C05', 'the loss or dispersion of another fibre configuration would be applied'))
@@ -527,4 +576,4 @@ from ..presence import rule_for as _presence_rule
 
 RULES_PRESENCE = ('Rp.presence', _presence_rule('C05', 'a fibre parameter of exactly 0 would be replaced by a default'))
 
-RULES = [('R4.cd', r4_cd), ('R1.once', r1_once), ('R2.budget', r2_budget), ('R3.accumulators', r3_accumulators), RULES_MEMO, RULES_PRESENCE, ('Rk.field-key', rk_field_key), ('Ru.units', ru_units), ('Rs.sorted-abscissa', rs_sorted), ('R5.lumped-once', r5_lumped_once), ('R6.lumped-all', r6_lumped_all), ('R7.channel-order', r7_channel_order), ('Rn.arg-roles', rn_arg_roles), ('R8.ref-point', r8_ref_point)]
+RULES = [('R4.cd', r4_cd), ('R1.once', r1_once), ('R2.budget', r2_budget), ('R3.accumulators', r3_accumulators), RULES_MEMO, RULES_PRESENCE, ('Rk.field-key', rk_field_key), ('Ru.units', ru_units), ('Rs.sorted-abscissa', rs_sorted), ('R5.lumped-once', r5_lumped_once), ('R6.lumped-all', r6_lumped_all), ('R7.channel-order', r7_channel_order), ('Rn.arg-roles', rn_arg_roles), ('R8.ref-point', r8_ref_point), ('R9.raman-orders', r9_raman_orders), ('R10.sibling-accumulators', r10_sibling_accumulators)]
